@@ -180,6 +180,11 @@ Inductive fails_at (F : forest) (stream : bool) : nat -> graph -> list string ->
     (List.length pre < effective_max g)%nat ->
     In (NLam k f (BPreFail u)) st -> is_interrupt_task u = false ->
     fails_at F stream (S d) g [k] (Wrapf (pre_error stream [] u))
+| fa_limit : forall d g,
+    (* the graph's own loop runs into its step limit (e.g. a cyclic graph of succeeding nodes,
+       [cyclic_run_hits_limit]) *)
+    run_graph F stream (S d) g [] false = GFail [new_graph_run_error (Leaf id_exceed)] ->
+    fails_at F stream (S d) g [] (new_graph_run_error (Leaf id_exceed))
 | fa_sub : forall d g pre st post k gi g' p r,
     g_stages g = pre ++ st :: post -> quiet_stages F stream (run_graph F stream d) pre ->
     (List.length pre < effective_max g)%nat -> pre_fails stream [] st = [] ->
@@ -193,12 +198,13 @@ Qed.
 
 Lemma fails_at_not_interrupt : forall F stream d g p r, fails_at F stream d g p r -> is_interrupt_task r = false.
 Proof.
-  intros F stream d g p r H. induction H; try assumption.
+  intros F stream d g p r H. induction H; try assumption; try reflexivity.
   rewrite pre_error_interrupt_task. assumption.
 Qed.
 
-Lemma fails_at_nonempty : forall F stream d g p r, fails_at F stream d g p r -> p <> [].
-Proof. intros F stream d g p r H. destruct H; discriminate. Qed.
+Lemma fails_at_nonempty : forall F stream d g p r, fails_at F stream d g p r ->
+  p <> [] \/ (p = [] /\ r = new_graph_run_error (Leaf id_exceed)).
+Proof. intros F stream d g p r H. destruct H; try (left; discriminate). right. split; reflexivity. Qed.
 
 Lemma wrap_path_interrupt_task : forall p r, is_interrupt_task (wrap_path p r) = is_interrupt_task r.
 Proof. intros p r. rewrite wrap_path_is_apply_ws. apply interrupt_task_through_wrappers. Qed.
@@ -237,6 +243,7 @@ Proof.
   intros F stream HF HP d g p r Hfa.
   induction Hfa as [d g pre st post n es r Hst Hpre Hmax Hpf Hn Hleaf Hex Hr Hni
                    |d g pre st post k f u Hst Hpre Hmax Hn Hni
+                   |d g Hrun
                    |d g pre st post k gi g' p r Hst Hpre Hmax Hpf Hn Hg' Hfa IH];
     intros i Hg Hd.
   - cbn [run_graph].
@@ -267,6 +274,7 @@ Proof.
                 (effective_max g - List.length pre - 1) st post [] k f u Hn) as [es' [Hrun [Hin _]]].
     { unfold pre_panic. destruct stream; reflexivity. }
     exists es'. split; [exact Hrun|]. exact Hin.
+  - eexists. split; [exact Hrun|]. left. reflexivity.
   - assert (Hin_st : In st (g_stages g)) by (rewrite Hst; apply in_or_app; right; left; reflexivity).
     destruct (HF i g st k gi Hg Hin_st Hn) as [Hlt Hlen].
     destruct (IH gi Hg' ltac:(lia)) as [es0 [Hrun0 Hin0]].
@@ -309,10 +317,12 @@ Proof.
     replace (match par, @None err with (PCollect | PTransform), Some e => [IErr e] | _, _ => [] end) with (@nil item)
       by (destruct par; reflexivity).
     rewrite Hrun. apply in_map_iff. exists (wrap_path p r). split; [reflexivity|exact Hin].
-  - intros Hni. split.
-    + rewrite named_msg_path by (apply top_error_named, wrap_path_named; [eapply fails_at_nonempty; eauto|exact Hni]).
-      rewrite top_error_path. apply wrap_path_np. exact Hni.
-    + rewrite top_error_path. apply wrap_path_np. exact Hni.
+  - intros Hni. destruct (fails_at_nonempty _ _ _ _ _ _ Hfa) as [Hne|[-> ->]].
+    + split.
+      * rewrite named_msg_path by (apply top_error_named, wrap_path_named; [exact Hne|exact Hni]).
+        rewrite top_error_path. apply wrap_path_np. exact Hni.
+      * rewrite top_error_path. apply wrap_path_np. exact Hni.
+    + destruct par; split; reflexivity.
 Qed.
 
 (* a well-nested forest never makes the public call run out of nesting fuel *)
